@@ -34,6 +34,13 @@ def md_list(t, axis):
     return [plain(m) if m is not None else None for m in md]
 
 
+def _gmd(t, axis):
+    g = t.group_metadata(axis=axis)
+    if not g:
+        return None
+    return {str(k): plain(v) for k, v in sorted(g.items())}
+
+
 def snapshot(t, copy=True):
     """Deep snapshot of observable content.  Reads a deep copy so that the
     original's internal layout is left exactly as it was."""
@@ -48,6 +55,8 @@ def snapshot(t, copy=True):
         "samp_md": md_list(c, "sample"),
         "type": c.type,
         "table_id": c.table_id,
+        "obs_gmd": _gmd(c, "observation"),
+        "samp_gmd": _gmd(c, "sample"),
     }
 
 
